@@ -3,7 +3,7 @@
    correspondence run of the check); c_pressure / c_loading / convert_* inside them are GENERATED from the source. *)
 From Coq Require Import Reals Lra QArith ZArith String List Bool Sorted.
 From PG Require Import Lib.Num Lib.Py Gen.UnitsGen1 Units.AdsOracle Gen.UnitsGen2 Units.UnitsSpec Units.LoadingPhys Units.C01Theorems
-  Iso.IsoState Gen.IsoGen Iso.IsoSpec Iso.IsoAccess Iso.C03Theorems Iso.InterpScale.
+  Iso.IsoState Gen.IsoGen Iso.IsoSpec Iso.IsoAccess Iso.C03Theorems Iso.InterpScale Units.MaterialProofs Gen.ModelIsoGen Iso.ModelAccess.
 Import ListNotations.
 Open Scope list_scope.
 Open Scope R_scope.
@@ -121,3 +121,108 @@ Proof.
   { repeat constructor; simpl; lra. }
   split; [exact H|]. exact (proj1 (interp_at_knots (1, 10) (2, 20) [(4, 30)] [] (@FNone RNum) H)).
 Qed.
+
+(* ------------------------------------------------------------------ MODEL isotherms (the other isotherm class of the property).
+   model_loading_at / model_pressure_at are GENERATED from core/modelisotherm.py (Gen/ModelIsoGen.v); f and g are ANY fitted model
+   functions loading(p) / pressure(n); br is the branch the model was fitted on. *)
+Theorem model_loading_at_in_any_representation_is_convert_evaluate_convert :
+  forall (a : adsorbate RNum) psat M rml rmg dens mm T tk,
+  a_psat_Pa a (Some (kelvin_of tk T)) = Some psat -> ads_at a (Some (kelvin_of tk T)) M rml rmg ->
+  0 < psat -> 0 < M -> 0 < rml -> 0 < rmg -> 0 < dens -> 0 < mm -> kelvin_of tk T <> 0 ->
+  forall (rp : prep) (rl : lrep) (rm : mrep) (br : option string) (f g : R -> res R),
+  let s := mk_state rp rl rm tk T a (mat_of dens mm) [] [] [] None None in
+  forall p (rp' : prep) (rl' : lrep) (rm' : mrep),
+  model_loading_at RNum br f s p None (p_unit rp') (p_mode rp') (l_unit rl') (l_basis rl') (m_unit rm') (m_basis rm')
+  = bind (f (spec_conv (p_canon psat rp') (p_canon psat rp) p)) (fun n =>
+      Ok (spec_conv (l_canon M rml rmg rm' rl) (l_canon M rml rmg rm' rl') (spec_conv (m_canon dens mm rm') (m_canon dens mm rm) n))).
+Proof. exact model_loading_at_in_any_representation_is_convert_evaluate_convert_u. Qed.
+Print Assumptions model_loading_at_in_any_representation_is_convert_evaluate_convert.
+Theorem model_pressure_at_in_any_representation_is_convert_evaluate_convert :
+  forall (a : adsorbate RNum) psat M rml rmg dens mm T tk,
+  a_psat_Pa a (Some (kelvin_of tk T)) = Some psat -> ads_at a (Some (kelvin_of tk T)) M rml rmg ->
+  0 < psat -> 0 < M -> 0 < rml -> 0 < rmg -> 0 < dens -> 0 < mm -> kelvin_of tk T <> 0 ->
+  forall (rp : prep) (rl : lrep) (rm : mrep) (br : option string) (f g : R -> res R),
+  let s := mk_state rp rl rm tk T a (mat_of dens mm) [] [] [] None None in
+  forall n (rp' : prep) (rl' : lrep) (rm' : mrep), l_is_phys rl' = true ->
+  model_pressure_at RNum br g s n None (p_unit rp') (p_mode rp') (l_unit rl') (l_basis rl') (m_unit rm') (m_basis rm')
+  = bind (g (spec_conv (l_canon M rml rmg rm' rl') (l_canon M rml rmg rm' rl) (spec_conv (m_canon dens mm rm) (m_canon dens mm rm') n))) (fun p =>
+      Ok (spec_conv (p_canon psat rp) (p_canon psat rp') p)).
+Proof. exact model_pressure_at_in_any_representation_is_convert_evaluate_convert_u. Qed.
+Print Assumptions model_pressure_at_in_any_representation_is_convert_evaluate_convert.
+Theorem model_queries_without_unit_arguments_are_the_model :
+  forall (a : adsorbate RNum) psat M rml rmg dens mm T tk,
+  a_psat_Pa a (Some (kelvin_of tk T)) = Some psat -> ads_at a (Some (kelvin_of tk T)) M rml rmg ->
+  0 < psat -> 0 < M -> 0 < rml -> 0 < rmg -> 0 < dens -> 0 < mm -> kelvin_of tk T <> 0 ->
+  forall (rp : prep) (rl : lrep) (rm : mrep) (br : option string) (f g : R -> res R),
+  let s := mk_state rp rl rm tk T a (mat_of dens mm) [] [] [] None None in
+  forall x, model_loading_at RNum br f s x None None None None None None None = f x
+         /\ model_pressure_at RNum br g s x None None None None None None None = g x.
+Proof. exact model_queries_without_unit_arguments_are_the_model_u. Qed.
+Print Assumptions model_queries_without_unit_arguments_are_the_model.
+Theorem model_loading_at_with_pressure_representation_only :
+  forall (a : adsorbate RNum) psat M rml rmg dens mm T tk,
+  a_psat_Pa a (Some (kelvin_of tk T)) = Some psat -> ads_at a (Some (kelvin_of tk T)) M rml rmg ->
+  0 < psat -> 0 < M -> 0 < rml -> 0 < rmg -> 0 < dens -> 0 < mm -> kelvin_of tk T <> 0 ->
+  forall (rp : prep) (rl : lrep) (rm : mrep) (br : option string) (f g : R -> res R),
+  let s := mk_state rp rl rm tk T a (mat_of dens mm) [] [] [] None None in
+  forall p (rp' : prep),
+  model_loading_at RNum br f s p None (p_unit rp') (p_mode rp') None None None None = f (spec_conv (p_canon psat rp') (p_canon psat rp) p).
+Proof. exact model_loading_at_with_pressure_representation_only_u. Qed.
+Print Assumptions model_loading_at_with_pressure_representation_only.
+Theorem model_loading_at_with_loading_representation_only :
+  forall (a : adsorbate RNum) psat M rml rmg dens mm T tk,
+  a_psat_Pa a (Some (kelvin_of tk T)) = Some psat -> ads_at a (Some (kelvin_of tk T)) M rml rmg ->
+  0 < psat -> 0 < M -> 0 < rml -> 0 < rmg -> 0 < dens -> 0 < mm -> kelvin_of tk T <> 0 ->
+  forall (rp : prep) (rl : lrep) (rm : mrep) (br : option string) (f g : R -> res R),
+  let s := mk_state rp rl rm tk T a (mat_of dens mm) [] [] [] None None in
+  forall p (rl' : lrep),
+  model_loading_at RNum br f s p None None None (l_unit rl') (l_basis rl') None None
+  = bind (f p) (fun n => Ok (spec_conv (l_canon M rml rmg rm rl) (l_canon M rml rmg rm rl') n)).
+Proof. exact model_loading_at_with_loading_representation_only_u. Qed.
+Print Assumptions model_loading_at_with_loading_representation_only.
+Theorem model_queries_refuse_another_branch :
+  forall (a : adsorbate RNum) psat M rml rmg dens mm T tk,
+  a_psat_Pa a (Some (kelvin_of tk T)) = Some psat -> ads_at a (Some (kelvin_of tk T)) M rml rmg ->
+  0 < psat -> 0 < M -> 0 < rml -> 0 < rmg -> 0 < dens -> 0 < mm -> kelvin_of tk T <> 0 ->
+  forall (rp : prep) (rl : lrep) (rm : mrep) (br : option string) (f g : R -> res R),
+  let s := mk_state rp rl rm tk T a (mat_of dens mm) [] [] [] None None in
+  forall b x pu pm lu lb mu mb, ostr_truthy b = true -> ostr_eqb b br = false ->
+  model_loading_at RNum br f s x b pu pm lu lb mu mb = Err ParameterError /\ model_pressure_at RNum br g s x b pu pm lu lb mu mb = Err ParameterError.
+Proof. exact model_queries_refuse_another_branch_u. Qed.
+Print Assumptions model_queries_refuse_another_branch.
+Theorem model_queries_refuse_unitless_arguments :
+  forall (a : adsorbate RNum) psat M rml rmg dens mm T tk,
+  a_psat_Pa a (Some (kelvin_of tk T)) = Some psat -> ads_at a (Some (kelvin_of tk T)) M rml rmg ->
+  0 < psat -> 0 < M -> 0 < rml -> 0 < rmg -> 0 < dens -> 0 < mm -> kelvin_of tk T <> 0 ->
+  forall (rp : prep) (rl : lrep) (rm : mrep) (br : option string) (f g : R -> res R),
+  let s := mk_state rp rl rm tk T a (mat_of dens mm) [] [] [] None None in
+  (forall p pu lu lb mu mb, ostr_truthy pu = false -> model_loading_at RNum br f s p None pu (Some "absolute"%string) lu lb mu mb = Err ParameterError)
+  /\ (forall n pu pm lb mu mb, ostr_truthy lb = true -> ostr_truthy mb = false -> ostr_truthy mu = false ->
+       model_pressure_at RNum br g s n None pu pm None lb mu mb = Err ParameterError).
+Proof. exact model_queries_refuse_unitless_arguments_u. Qed.
+Print Assumptions model_queries_refuse_unitless_arguments.
+Theorem model_round_trip_through_any_foreign_representation :
+  forall (a : adsorbate RNum) psat M rml rmg dens mm T tk,
+  a_psat_Pa a (Some (kelvin_of tk T)) = Some psat -> ads_at a (Some (kelvin_of tk T)) M rml rmg ->
+  0 < psat -> 0 < M -> 0 < rml -> 0 < rmg -> 0 < dens -> 0 < mm -> kelvin_of tk T <> 0 ->
+  forall (rp : prep) (rl : lrep) (rm : mrep) (br : option string) (f g : R -> res R),
+  let s := mk_state rp rl rm tk T a (mat_of dens mm) [] [] [] None None in
+  forall p n (rp' : prep) (rl' : lrep) (rm' : mrep), l_is_phys rl' = true ->
+  f (spec_conv (p_canon psat rp') (p_canon psat rp) p) = Ok n -> g n = Ok (spec_conv (p_canon psat rp') (p_canon psat rp) p) ->
+  bind (model_loading_at RNum br f s p None (p_unit rp') (p_mode rp') (l_unit rl') (l_basis rl') (m_unit rm') (m_basis rm'))
+       (fun y => model_pressure_at RNum br g s y None (p_unit rp') (p_mode rp') (l_unit rl') (l_basis rl') (m_unit rm') (m_basis rm')) = Ok p.
+Proof. exact model_round_trip_through_any_foreign_representation_u. Qed.
+Print Assumptions model_round_trip_through_any_foreign_representation.
+(* the stored material representation is the context when none is passed (true since the fix: commit 1ff1900 in /repo; before, a
+   model isotherm stored as a fraction raised KeyError here) *)
+Theorem model_pressure_at_with_loading_representation_only :
+  forall (a : adsorbate RNum) psat M rml rmg dens mm T tk,
+  a_psat_Pa a (Some (kelvin_of tk T)) = Some psat -> ads_at a (Some (kelvin_of tk T)) M rml rmg ->
+  0 < psat -> 0 < M -> 0 < rml -> 0 < rmg -> 0 < dens -> 0 < mm -> kelvin_of tk T <> 0 ->
+  forall (rp : prep) (rl : lrep) (rm : mrep) (br : option string) (f g : R -> res R),
+  let s := mk_state rp rl rm tk T a (mat_of dens mm) [] [] [] None None in
+  forall n (rl' : lrep), l_is_phys rl' = true ->
+  model_pressure_at RNum br g s n None None None (l_unit rl') (l_basis rl') None None
+  = g (spec_conv (l_canon M rml rmg rm rl') (l_canon M rml rmg rm rl) n).
+Proof. exact model_pressure_at_with_loading_representation_only_u. Qed.
+Print Assumptions model_pressure_at_with_loading_representation_only.
